@@ -4,6 +4,7 @@ import (
 	"fmt"
 	"math"
 
+	"github.com/sahandsafizadeh/qeep/component/initializers"
 	"github.com/sahandsafizadeh/qeep/component/layers"
 	"github.com/sahandsafizadeh/qeep/tensor"
 
@@ -43,6 +44,22 @@ func runC16(c *fw.Ctx) {
 	}
 	for i := 0; i < c.Pick(500, 5000); i++ {
 		c.Case(func(k *fw.K) { c16Defaults(k) })
+	}
+	for i := 0; i < c.Pick(150, 1500); i++ { // long feature or batch sizes (127..1025)
+		c.Case(func(k *fw.K) {
+			B, D, O := 1+k.Rng.Intn(3), 1+k.Rng.Intn(3), 1+k.Rng.Intn(3)
+			n := LongSizes[k.Rng.Intn(17)]
+			if k.Rng.Intn(3) == 0 {
+				B = n
+			} else {
+				D = n
+			}
+			k.Count("long_dimension_histories", 1)
+			c16History(k, B, D, O)
+		})
+	}
+	for i := 0; i < c.Pick(300, 3000); i++ {
+		c.Case(func(k *fw.K) { c16SharedInitializer(k) })
 	}
 }
 
@@ -85,6 +102,9 @@ func c16History(k *fw.K, B, D, O int) {
 	}
 	curW, curB := w, b
 	forward := func(tag string, track bool) (x *ref.T, rx, ry tensor.Tensor, ok bool) {
+		if B <= 6 && k.Rng.Intn(3) == 0 && tag != "Forward before back-propagation" {
+			B = 1 + k.Rng.Intn(6) // the same layer sees batches of different sizes
+		}
 		x = Shuffled(k.Rng, Unique(k.Rng, []int{B, D}, 0.2, 2))
 		rx = rt.MustLeaf(x, track)
 		if p := call(func() { ry, err = fc.Forward(rx) }); p != nil || err != nil || ry == nil {
@@ -93,7 +113,7 @@ func c16History(k *fw.K, B, D, O int) {
 		}
 		want, _ := ref.FC(x, curW, curB)
 		k.Count("forward_calls", 1)
-		if e := rt.Compare(ry, want, 1e-11, 1e-12, nil, 0); e != nil {
+		if e := rt.Compare(ry, want, 1e-11*float64(D), 1e-11, nil, 0); e != nil {
 			k.Failf("%s: Forward differs from y[b][o] = W[o]*sum_d x[b][d] + B[o] with the current parameters W=%v B=%v: %v", tag, curW.Data, curB.Data, e)
 			return nil, nil, nil, false
 		}
@@ -266,5 +286,63 @@ func c16Defaults(k *fw.K) {
 	}
 	if err != nil || (*ws[0].Value).Gradient() == nil || (*ws[1].Value).Gradient() == nil {
 		k.Failf("default parameters did not receive gradients (err=%v)", err)
+	}
+}
+
+// c16SharedInitializer: ONE initializer object supplies Weight and Bias (and a second layer of the same
+// width built from the same Initializers map): the parameters must be independent tensors - a gradient
+// that belongs to one must not appear on another.
+func c16SharedInitializer(k *fw.K) {
+	D, O := 1+k.Rng.Intn(4), 1+k.Rng.Intn(4)
+	val := 0.5 + k.Rng.Float64()
+	full := initializers.NewFull(&initializers.FullConfig{Value: val})
+	k.Case = map[string]any{"scenario": "one Full initializer object for Weight and Bias of two layers", "inputs": D, "outputs": O, "value": val}
+	k.Key("shared-initializer/%d/%d", D, O)
+	k.Count("shared_initializer_cases", 1)
+	inits := map[string]layers.Initializer{"Weight": full, "Bias": full}
+	var l1, l2 *layers.FC
+	var err error
+	if p := call(func() {
+		l1, err = layers.NewFC(&layers.FCConfig{Inputs: D, Outputs: O, Initializers: inits})
+		if err == nil {
+			l2, err = layers.NewFC(&layers.FCConfig{Inputs: D, Outputs: O, Initializers: inits})
+		}
+	}); p != nil || err != nil {
+		k.Failf("NewFC with a shared initializer: panic=%v err=%v", p, err)
+		return
+	}
+	x := Shuffled(k.Rng, Unique(k.Rng, []int{1, D}, 0.2, 2)) // batch 1: no expansion, gradients are exact
+	g := randG(k, []int{1, O})
+	for li, l := range []*layers.FC{l1, l2} {
+		var y tensor.Tensor
+		if p := call(func() {
+			y, err = l.Forward(rt.MustLeaf(x, false))
+			if err == nil {
+				err = weightedBackprop(y, g)
+			}
+		}); p != nil || err != nil {
+			k.Failf("layer %d built from the shared initializer: Forward/BackPropagate failed: panic=%v err=%v", li+1, p, err)
+			return
+		}
+		w := ref.Full([]int{O}, val)
+		yv, _ := ref.FC(x, w, w)
+		want := ref.VJP(ref.Instr{Op: "fc"}, []*ref.T{x, w, w}, yv, g, ref.RuleSum)
+		ws := l.Weights()
+		for i, name := range []string{"Weight", "Bias"} {
+			gr := (*ws[i].Value).Gradient()
+			if gr == nil {
+				k.Failf("layer %d: %s received no gradient (parameters built by one initializer object are not independent tensors?)", li+1, name)
+				return
+			}
+			got, err := rt.Read(gr)
+			if err != nil {
+				k.Failf("layer %d: %s gradient unreadable: %v", li+1, name, err)
+				return
+			}
+			if e := gradClose(got, want[1+i]); e != nil {
+				k.Failf("layer %d: gradient of %s differs from its own derivative (a gradient belonging to another parameter leaked in?): %v", li+1, name, e)
+				return
+			}
+		}
 	}
 }
